@@ -394,10 +394,15 @@ class Parser:
                 return ("array", t, n)
             self.expect("]")
             return ("vec", t)
-        if self.peek().s == "dyn" and self.peek(1).k == "id" and self.peek(2).s not in ("<", "+", "::"):
-            # `&dyn Trait`: an opaque named type (its methods can only be reached as declared externals)
+        if self.peek().s in ("impl", "dyn") and self.peek().k == "id" and self.peek(1).k == "id":
+            # trait object / impl-trait (`&dyn Wallet`, `Arc<dyn Clock>`, `impl Fn..` is still refused below): the opaque
+            # type named after the (first) trait; further bounds (`+ Send`) are skipped
             self.next()
-            return ("named", self.ident(), [])
+            t0 = self.type_()
+            while self.accept("+"):
+                if self.peek().k == "life": self.next()
+                else: self.type_()
+            return t0
         if self.peek().s in ("impl", "dyn", "fn", "*"):
             self.err("unsupported type")
         segs = [self.ident()]
@@ -735,16 +740,6 @@ class Parser:
             return ("tuple", es)
         if x.s == "{" and x.k == "p":
             return self.block()
-        if x.s == "[" and x.k == "p":
-            # array literal `[e, e, ..]` (no repeat form)
-            self.next()
-            es = []
-            while not self.accept("]"):
-                es.append(self.expr())
-                if self.peek().s == ";": self.err("array repeat expression is outside the subset")
-                if not self.accept(","):
-                    self.expect("]"); break
-            return ("array", es)
         if x.s == "|" or x.s == "||":
             self.next()
             params = []
